@@ -306,3 +306,37 @@ Example C01_hc_chain_dictctx_nonvacuous :
   HcChainDict.dict_loop vrd (HcChain.mkCT empty 0) 65536 (65536 + 12) 65536 65536 (65536 + 15) 65536 65536 false 1 65536 (65536 - 12) 3 0 0
   = (8, 12, 0).
 Proof. vm_compute. reflexivity. Qed.
+
+(* the whole dictCtx search: LZ4HC_InsertAndGetWiderMatch with dict == usingDictCtxHc, for ANY dictionary-context tables
+   that satisfy the consistency invariant dgood (every hash entry / chain successor is out of reach or a genuine position
+   in [dictLimit, end - 4]), in every configuration: never out of fuel, the working tables keep their invariant, a result
+   longer than `longest` is a real match, the history starting at the dictionary's first byte *)
+From LZ4V Require Proofs.HcChainDictLoad.
+Theorem C01_hc_chain_dictctx_search :
+  forall vrd prefixIdx dictIdx dht dct dDictLimit dictEndOffset t B q iLow iHigh longest0 nb pa swap fav,
+    (forall a, 0 <= vrd a < 256) -> 65536 <= dictIdx /\ dictIdx <= prefixIdx ->
+    65536 <= dDictLimit /\ dDictLimit <= dictEndOffset /\ dictEndOffset <= 1073741824 + 131072 /\ dictEndOffset - dDictLimit <= dictIdx ->
+    (forall k, HcChainDictSound.dgood dDictLimit dictEndOffset (get dht k)) ->
+    (forall x, dDictLimit <= x <= dictEndOffset - 4 ->
+       0 <= HcChain.delta_next dct x <= x /\ HcChainDictSound.dgood dDictLimit dictEndOffset (x - HcChain.delta_next dct x)) ->
+    HcChainSearch.TB t B -> B <= q -> prefixIdx <= iLow -> iLow <= q -> q + 4 <= iHigh -> iHigh < M32 - 65536 ->
+    exists m t', HcChainDict.insertAndGetWiderMatch_dict vrd prefixIdx dictIdx dht dct dDictLimit dictEndOffset t q iLow iHigh longest0 nb pa swap fav = Some (m, t') /\
+      HcChainSearch.TB t' q /\ HcChain.t_ntu t' = q /\ longest0 <= HcChain.hm_len m /\
+      (longest0 < HcChain.hm_len m ->
+        match_ok vrd (dictIdx - (dictEndOffset - dDictLimit)) (q + HcChain.hm_back m) (HcChain.hm_off m) (HcChain.hm_len m) /\
+        iLow <= q + HcChain.hm_back m /\ HcChain.hm_back m <= 0 /\ q + HcChain.hm_back m + HcChain.hm_len m <= iHigh /\
+        q + 4 <= q + HcChain.hm_back m + HcChain.hm_len m).
+Proof. exact HcChainDictSound.wider_dict_sound. Qed.
+Print Assumptions C01_hc_chain_dictctx_search.
+
+(* LZ4_loadDictHC at a hash-chain / optimal level (fresh state, LZ4HC_Insert of the dictionary, n <= 64 KB) leaves tables
+   that satisfy that invariant *)
+Theorem C01_hc_chain_dictctx_loadDict :
+  forall vrd P n, 65536 <= P /\ P + n < M32 -> 0 <= n <= 65536 ->
+    let t := HcChain.insert vrd P (HcChain.mkHT empty (HcChain.mkCT empty 0) P) (P + n - 3) in
+    4 <= n ->
+    (forall k, HcChainDictSound.dgood P (P + n) (get (HcChain.t_hash t) k)) /\
+    (forall x, P <= x <= P + n - 4 ->
+       0 <= HcChain.delta_next (HcChain.t_chain t) x <= x /\ HcChainDictSound.dgood P (P + n) (x - HcChain.delta_next (HcChain.t_chain t) x)).
+Proof. exact HcChainDictLoad.loadDict_tables_good. Qed.
+Print Assumptions C01_hc_chain_dictctx_loadDict.
